@@ -157,7 +157,7 @@ example : viewOf { unfinished with nbThreads := 2 } (some shopOnly) =
     some ([("login", some .passed), ("search", some .failed), ("checkout", none)],
           some { tests := 3, successes := 1, failures := 1, skipped := none, disabled := none }) := by decide
 
-/-- D32 (`C20/short-report/in-progress-raises`): on a sequential report whose last kept result is still in progress,
+/-- D34 (`C20/short-report/in-progress-raises`): on a sequential report whose last kept result is still in progress,
     `lcc report --short <filter>` raises `TypeError` (`None - float` in `ReportStats.from_suites`) instead of
     printing the summary of the three displayed tests; `ReportStats.from_suites(report.get_suites(), False)` raises
     likewise, while the unfiltered view of the same report is fine. -/
